@@ -1,0 +1,101 @@
+//! Observation hooks for external runtime monitors.
+//!
+//! Only compiled with `RUSTFLAGS="--cfg rscel_verif"`; a normal build contains none of this.
+//! A monitor installs a thread-local sink and receives one event per VM frame / step and per
+//! compile-time folding attempt. The sink must not call back into rscel.
+use std::cell::RefCell;
+
+use crate::ByteCode;
+
+#[derive(Debug, Clone, PartialEq)]
+pub enum Event {
+    /// A VM frame (`run_raw`) was entered; `depth` is the call-depth counter after the increment.
+    FrameEnter { depth: usize, len: usize },
+    /// An instruction is about to execute: its index, opcode tag, operand and the stack height.
+    Step {
+        pc: usize,
+        op: u8,
+        arg: i64,
+        stack_len: usize,
+    },
+    /// The fetch loop ran off the end of the block with this many values on the stack.
+    FrameEnd { stack_len: usize },
+    /// The frame was left (normally or through an early return).
+    FrameExit,
+    /// The compiler tried to evaluate a call at compile time.
+    ConstFold { folded: bool },
+}
+
+thread_local! {
+    static SINK: RefCell<Option<Box<dyn FnMut(Event)>>> = RefCell::new(None);
+}
+
+/// Install the event sink for the current thread (replaces any previous one).
+pub fn set_sink(sink: Box<dyn FnMut(Event)>) {
+    SINK.with(|s| *s.borrow_mut() = Some(sink));
+}
+
+/// Remove the event sink of the current thread.
+pub fn clear_sink() {
+    SINK.with(|s| *s.borrow_mut() = None);
+}
+
+pub(crate) fn emit(ev: Event) {
+    SINK.with(|s| {
+        if let Ok(mut guard) = s.try_borrow_mut() {
+            if let Some(sink) = guard.as_mut() {
+                sink(ev);
+            }
+        }
+    });
+}
+
+pub(crate) struct FrameGuard;
+
+impl FrameGuard {
+    pub(crate) fn enter(depth: usize, len: usize) -> FrameGuard {
+        emit(Event::FrameEnter { depth, len });
+        FrameGuard
+    }
+}
+
+impl Drop for FrameGuard {
+    fn drop(&mut self) {
+        emit(Event::FrameExit);
+    }
+}
+
+/// Opcode tag and integer operand of an instruction (tags follow the declaration order).
+pub fn op_tag(op: &ByteCode) -> (u8, i64) {
+    use ByteCode::*;
+    match op {
+        Push(_) => (0, 0),
+        Pop => (1, 0),
+        Test => (2, 0),
+        Dup => (3, 0),
+        Or => (4, 0),
+        And => (5, 0),
+        Not => (6, 0),
+        Neg => (7, 0),
+        Add => (8, 0),
+        Sub => (9, 0),
+        Mul => (10, 0),
+        Div => (11, 0),
+        Mod => (12, 0),
+        Lt => (13, 0),
+        Le => (14, 0),
+        Eq => (15, 0),
+        Ne => (16, 0),
+        Ge => (17, 0),
+        Gt => (18, 0),
+        In => (19, 0),
+        Jmp(d) => (20, *d as i64),
+        JmpCond { when, dist } => (if when.as_bool() { 21 } else { 22 }, *dist as i64),
+        MkList(n) => (23, *n as i64),
+        MkDict(n) => (24, *n as i64),
+        Index => (25, 0),
+        Access => (26, 0),
+        Call(n) => (27, *n as i64),
+        FmtString(n) => (28, *n as i64),
+    }
+}
